@@ -103,7 +103,28 @@ def impl(case):
     if case.get("dictcls") == "ordered":
         import collections
         kw["dictcls"] = collections.OrderedDict
+    prior = case.get("prior")
+    if prior:
+        # the same exporter object was used before and that export was aborted by a user hook raising part-way:
+        # every export starts afresh
+        state = {"boom_at": None, "calls": 0}
+        real = kw.get("attriter") or (lambda items: items)
+
+        def guarded(items, state=state, real=real):
+            state["calls"] += 1
+            if state["boom_at"] is not None and state["calls"] >= state["boom_at"]:
+                raise KeyError("user attriter")
+            return real(items)
+        kw = dict(kw, attriter=guarded)
     exp = DictExporter(**kw)
+    if prior:
+        for k in prior:
+            state["boom_at"], state["calls"] = k, 0
+            try:
+                exp.export(top)
+            except KeyError:
+                pass
+        state["boom_at"] = None
     d = exp.export(root)
     out = {"export": ddata_canon(d)}
     if snapshot(top) != before:
@@ -141,6 +162,11 @@ def impl(case):
             kw = dict(kw)
             kw["maxlevel"] = case.get("dictmaxlevel")
         de = DictExporter(**kw) if custom else None
+        pj = jk.pop("prior_jsonmax", None)
+        jkw.pop("prior_jsonmax", None)
+        if pj is not None:
+            # another JsonExporter, with its own maxlevel, exported in the same process before
+            JsonExporter(maxlevel=pj, **jkw).export(top)
         je = JsonExporter(dictexporter=de, maxlevel=jmax, **jkw)
         text = je.export(root)
         ref_exp = DictExporter(**kw) if custom else DictExporter()
